@@ -8,6 +8,8 @@ from ..runner import Sub
 from .c05 import chain
 
 ID = 'C06'
+TECHNIQUE = "differential PBT against the fixed-size chain (C05) and the global cost (C15) with thresholds drawn among the chain's own costs"
+LEVEL_TEXT = 'Exploration: First-acceptable refinement, min-points continuation, multi-threshold selection incl. the default threshold list. Finds counter-examples (shrunk to a replay file); never proves absence.'
 RULE = ('Case = (performance curve, metric, distance, ordering, threshold drawn among the global costs of the '
         'fixed-size chain S_2..S_n of this very curve so that "first acceptable" differs from "some '
         'acceptable", min_points in 0..n+3, threshold list).  Oracle (differential against the fixed-size '
